@@ -82,6 +82,27 @@ func Semantic(j *job.Job, s *job.Sink) {
 			}
 			return true
 		}
+		// replIn is repl restricted to occurrences directly inside a statement of one of the
+		// given keywords (a member type of a union is not mandatory, the type of a leaf is)
+		replIn := func(old, new, kw string, parents map[string]bool) bool {
+			var idxs []int
+			for i := 0; ; {
+				k := strings.Index(t[i:], old)
+				if k < 0 {
+					break
+				}
+				if parents[enclosingKeyword(t, i+k)] {
+					idxs = append(idxs, i+k)
+				}
+				i += k + len(old)
+			}
+			if len(idxs) == 0 {
+				return false
+			}
+			k := idxs[r.Intn(len(idxs))]
+			t = t[:k] + new + t[k+len(old):]
+			return true
+		}
 		// prefixes this file can use
 		ownPfx, impPfx := "", []string{}
 		if m := regexp.MustCompile(`(?m)^\s*prefix (\S+);`).FindStringSubmatch(t); m != nil {
@@ -115,7 +136,7 @@ func Semantic(j *job.Job, s *job.Sink) {
 				fault, want = "bad enum value", []string{"enum"}
 			}
 		case 5:
-			if repl("type string;", "", "") {
+			if replIn("type string;", "", "", map[string]bool{"leaf": true, "leaf-list": true, "typedef": true}) {
 				fault, want = "missing mandatory substatement", []string{"leaf", "leaf-list", "typedef"}
 			}
 		case 6:
@@ -194,4 +215,27 @@ func Semantic(j *job.Job, s *job.Sink) {
 		}
 		s.Count("fault:"+fault, 1)
 	}
+}
+
+// enclosingKeyword returns the keyword of the statement whose block contains offset k of
+// a text printed by schema.Print (no braces inside strings there).
+func enclosingKeyword(t string, k int) string {
+	depth := 0
+	for i := k - 1; i >= 0; i-- {
+		switch t[i] {
+		case '}':
+			depth++
+		case '{':
+			if depth == 0 {
+				line := t[strings.LastIndex(t[:i], "\n")+1 : i]
+				f := strings.Fields(line)
+				if len(f) > 0 {
+					return f[0]
+				}
+				return ""
+			}
+			depth--
+		}
+	}
+	return ""
 }
